@@ -186,11 +186,60 @@ def check_styles_follow(ctx):
     ctx.check(f"self.{var} = pac.{getter}()" in t, "STYLE", f"{pac.qualname}|{var} <- pac.{getter}()", ctx.where(pac.module, pac.node), "set from the PAC", f"a PAC no longer sets {var}")
 
 
+def check_memory_swap(ctx):
+  """SWAP: End Of Caption exchanges the displayed and the non-displayed memory.  In
+  flip_buffered_to_active_captions the caption that was displayed on entry is saved *before* any call
+  that can clear it, the buffered caption becomes the displayed one, and the saved caption becomes
+  the new non-displayed memory."""
+  from ..rules.nul import _may_assign
+  ix = ctx.ix
+  f = ix.func("ttconv.scc.context:SccContext.flip_buffered_to_active_captions")
+  ctx.unit(f.module)
+  body = list(own_nodes(f.node))
+  saves = [st for st in body if isinstance(st, ast.Assign) and isinstance(st.targets[0], ast.Name) and unparse(st.value) == "self.active_caption"]
+  key = f"{f.qualname}|displayed and non-displayed memories are exchanged"
+  if len(saves) != 1:
+    ctx.bad("SWAP", key, ctx.where(f.module, f.node), f"the displayed caption is not saved exactly once on entry ({len(saves)} saves): it cannot become the non-displayed memory")
+    return
+  tmp = saves[0].targets[0].id
+  problems = []
+  # no call that may clear the displayed caption precedes the save
+  for c in body:
+    if isinstance(c, ast.Call) and isinstance(c.func, ast.Attribute) and isinstance(c.func.value, ast.Name) and c.func.value.id == "self" and (c.lineno, c.col_offset) < (saves[0].lineno, saves[0].col_offset):
+      if _may_assign(ix, f.cls, c.func.attr, "active_caption", set()):
+        problems.append(f"`{short(c, 40)}`, which can clear self.active_caption, runs before the displayed caption is saved")
+  promote = [st for st in body if isinstance(st, ast.Assign) and unparse(st.targets[0]) == "self.active_caption" and unparse(st.value) == "self.buffered_caption"]
+  if len(promote) != 1:
+    problems.append("the buffered caption does not become the displayed caption (`self.active_caption = self.buffered_caption`)")
+  restore = [st for st in body if isinstance(st, ast.Assign) and unparse(st.targets[0]) == "self.buffered_caption" and unparse(st.value) == tmp]
+  if len(restore) != 1:
+    problems.append(f"the caption displayed before the flip (`{tmp}`) does not become the non-displayed memory")
+  elif promote and (restore[0].lineno < promote[0].lineno):
+    problems.append("the non-displayed memory is overwritten before it was promoted")
+  ctx.check(not problems, "SWAP", key, ctx.where(f.module, f.node), f"saved in `{tmp}` before any clearing call, promoted, restored", "; ".join(problems) + ": pop-on captions loaded without ENM lose (or never see) the rows of the caption displayed before")
+
+
+def check_copy_lines(ctx):
+  """COPY-lines: the copy of a caption's rows that paint-on and roll-up captions carry forward keeps, for every text, its characters and every style property."""
+  ix = ctx.ix
+  f = ix.func("ttconv.scc.caption_paragraph:SccCaptionParagraph.copy_lines")
+  ctx.unit(f.module)
+  t = [c for c in own_nodes(f.node) if isinstance(c, ast.Call)]
+  has_text = any(isinstance(c.func, ast.Name) and c.func.id == "SccCaptionText" and c.args and "get_text()" in unparse(c.args[0]) for c in t)
+  style_loop = any(isinstance(lp, ast.For) and "get_style_properties()" in unparse(lp.iter) and any(isinstance(c, ast.Call) and isinstance(c.func, ast.Attribute) and c.func.attr == "add_style_property" for c in own_nodes(lp))
+                   for lp in own_nodes(f.node))
+  pos = any(isinstance(c.func, ast.Name) and c.func.id == "SccCaptionLine" and len(c.args) == 2 and "get_row()" in unparse(c.args[0]) and "get_indent()" in unparse(c.args[1]) for c in t)
+  ctx.check(has_text and style_loop and pos, "COPY-lines", f"{f.qualname}|rows are copied with position, text and style", ctx.where(f.module, f.node), "row, indent, text and every style property",
+            f"copy_lines loses {'the text ' if not has_text else ''}{'the style properties ' if not style_loop else ''}{'the row / indent ' if not pos else ''}of the rows it carries forward: painted rows change appearance when the next PAC arrives")
+
+
 def run(ctx):
   ix = ctx.ix
   check_dispatch(ctx)
   check_channel_and_frames(ctx)
   check_styles_follow(ctx)
+  check_memory_swap(ctx)
+  check_copy_lines(ctx)
   fs = common.funcs(ctx, ["ttconv.scc.caption_paragraph", "ttconv.scc.context", "ttconv.scc.line", "ttconv.scc.reader"])
   n = exa.check_exactness(ctx, fs, rule="EXA", exempt=common.EXA_EXEMPT, trunc_scope=common.time_trunc_scope(ctx))
   ctx.floor("EXA", "model time sinks in the SCC reader", n, 4)
